@@ -130,8 +130,42 @@ fn load(e: &mut EnumCtx, seed: &str, bytes: &[u8], what: &str, class: &str) {
     e.sample(|| json!({"seed": seed, "mutation": what, "outcome": match oc { 1 => "Ok", 2 => "Err", _ => "panic" }}));
 }
 
+/// Symbol names of every length around the powers of two, plain and made of 2-, 3- and 4-byte
+/// characters at every alignment, so that any byte offset a loader might cut or index a name at
+/// falls inside a character in one of the files.
+fn symbol_name_family(e: &mut EnumCtx) {
+    let lens = [1usize, 7, 8, 15, 16, 31, 32, 63, 64, 65, 127, 128, 129, 255, 256, 257, 1023, 1024, 1025, 4096];
+    let chars = ["a", "\u{e9}", "\u{20ac}", "\u{1f600}"];
+    for l in lens {
+        for (ci, ch) in chars.iter().enumerate() {
+            let w = ch.len();
+            for shift in 0..w {
+                if !e.next() {
+                    continue;
+                }
+                let mut name = "a".repeat(shift);
+                while name.len() < l + 8 {
+                    name.push_str(ch);
+                }
+                let spec = ElfSpec {
+                    e_type: 2,
+                    entry: 0x401000,
+                    segs: vec![Seg { p_type: PT_LOAD, flags: 5, vaddr: 0x401000, file: text_bytes(0x40, 1), memsz: 0x40, align: 0x1000 }],
+                    syms: Some(vec![
+                        Sym { name: Some("_start".into()), value: 0x401000, shndx: 4, info: 0x12 },
+                        Sym { name: Some(name.clone()), value: 0x401010, shndx: 4, info: 0x12 },
+                        Sym { name: Some(name[shift..].to_string()), value: 0x401020, shndx: 0xFFF1, info: 0x12 },
+                    ]),
+                };
+                load(e, "gen-symbol-names", &write(&spec), &format!("symbol name of {} bytes: {shift} x 'a' then {}-byte characters (around length {l})", name.len(), [1, 2, 3, 4][ci]), "symbol-name");
+            }
+        }
+    }
+}
+
 fn gen(thorough: bool, seeds: Vec<(String, Vec<u8>, bool)>) -> impl Fn(&mut EnumCtx) + Sync {
     move |e: &mut EnumCtx| {
+        symbol_name_family(e);
         for (name, bytes, generated) in &seeds {
             let fields = field_map(bytes);
             let flen = bytes.len() as u64;
@@ -356,7 +390,7 @@ pub fn run(tier: Tier) -> i32 {
         run.findings.merge(f);
         run.cov("devlike_profile_run", summary);
     }
-    enum_evidence(&mut run, &out, "one case = a seed (3 bundled binaries, 6 generated files incl. TLS / dynamic / RELRO / page-sized bss) with 0, 1, 2 or (inside one of the first three program headers) 3 header fields replaced by a value of the boundary alphabet {0,1,2,0x7F,0xFF,0x1000,0xFFFF,2^24,2^31-1,2^31,2^32,2^40,2^63-1,2^63,2^64-0x1000,2^64-1,len-1,len,len+1} plus every defined type constant (pairs: thorough = every two fields of the file; quick = inside one program header, the same field in two program headers, the e_ph* group, the e_sh* group, the symtab/strtab section headers), or truncated (generated files: every length; bundled: every length inside header, program headers, section headers, symbol tables); loaded in a worker with catch_unwind, a 1 GiB single-allocation guard, RLIMIT_AS and a hang watchdog; states = distinct (seed, mutation); distinct_nontrivial = distinct (seed, mutation, outcome, error text)");
+    enum_evidence(&mut run, &out, "one case = a seed (3 bundled binaries, 6 generated files incl. TLS / dynamic / RELRO / page-sized bss) with 0, 1, 2 or (inside one of the first three program headers) 3 header fields replaced by a value of the boundary alphabet {0,1,2,0x7F,0xFF,0x1000,0xFFFF,2^24,2^31-1,2^31,2^32,2^40,2^63-1,2^63,2^64-0x1000,2^64-1,len-1,len,len+1} plus every defined type constant (pairs: thorough = every two fields of the file; quick = inside one program header, the same field in two program headers, the e_ph* group, the e_sh* group, the symtab/strtab section headers), or truncated (generated files: every length; bundled: every length inside header, program headers, section headers, symbol tables); plus 200 well-formed files whose symbol names have every length around the powers of two up to 4096 and consist of 1-, 2-, 3- or 4-byte characters at every alignment; loaded in a worker with catch_unwind, a 1 GiB single-allocation guard, RLIMIT_AS and a hang watchdog; states = distinct (seed, mutation); distinct_nontrivial = distinct (seed, mutation, outcome, error text)");
     run.cov("seeds", json!(nseeds));
     run.guard("cases", out.cases >= 20_000 || out.capped, format!("{} inputs", out.cases));
     let okc = out.counters.get("ok").cloned().unwrap_or(0);
